@@ -165,6 +165,7 @@ type interpreter struct {
 	summaries          int
 	summaryPaths       int
 	fastDecisions      int
+	uuidSeq            int
 }
 
 type assertRec struct {
